@@ -2189,6 +2189,17 @@ func ruleJ8(c *Ctx) {
 							changed = true
 						}
 					case *ssa.UnOp:
+						// a map keeps its identity when it is cleared: every later load of the same field
+						// of the same object is the cleared map
+						if fo, ok := outer.(*ssa.FieldAddr); ok && x.Op == token.MUL && !derived[x] {
+							if fx, ok := x.X.(*ssa.FieldAddr); ok && fx.Field == fo.Field && (fx.X == fo.X || sameOperand(fx.X, fo.X)) {
+								if _, isMap := x.Type().Underlying().(*types.Map); isMap {
+									derived[x] = true
+									changed = true
+									return
+								}
+							}
+						}
 						if x.Op == token.MUL && x.X == outer && !derived[x] {
 							// loaded back after a derived value was stored there
 							stored := false
